@@ -10,6 +10,7 @@
 From Coq Require Import Relations.
 From Relay Require Import Base.Prelude Model.LockIR Proofs.LockIR_proofs Gen.LockGen.
 From Relay Require Model.SerialEq Proofs.SerialEq_proofs.
+From Relay Require Import Model.Reduction Proofs.Reduction_proofs.
 
 (* ------------------------------------------------------------------ part 1: generic *)
 Section Generic.
@@ -301,6 +302,89 @@ Example C12_serial_witness :
   = (true, 8%N, 17%N, [(0, 0, 0%N); (2, 1, 0%N); (1, 0, 1%N); (0, 1, 7%N); (2, 0, 6%N)],
      [(0, 0); (2, 1); (1, 0); (0, 1); (2, 0)], [0%N; 0%N; 1%N; 7%N; 6%N]).
 Proof. vm_compute. reflexivity. Qed.
+
+(* ------------------------------------------------------------------ part 5: from the lock IR to atomic sections *)
+(* THE REDUCTION (Lipton-style, proved by forward simulation with roll-back abstraction and commit point at Rel).
+   The lock IR is given values (Model/Reduction.v): every lock protects one object with a state, every thread has a
+   local state, Rd/Wr are deterministic functions of (local, object); control, Acq, Rel, Block as in LockIR - and
+   [C12_value_semantics_refines_lock_ir]: every step of this semantics IS a step of Model/LockIR.v's interleaving
+   semantics on the erased pool, so parts 1-3 apply to it.
+   [vstep] interleaves the individual IR steps of all threads under any schedule; [astep] is the operation-level
+   model: a thread takes a step that touches no object, or runs one whole critical section Acq m; ...; Rel m ALONE
+   in a single step ([solos] = upd := the sequential run of the body; relational, because Choice/Loop/Block are
+   nondeterministic in the IR; thread-local state flows from one operation of a thread to its next).
+   Hypothesis on the code ([msec_cont MOut k], decidable, evaluated on the generated bodies below): the code of
+   every thread is a sequence of EXCLUSIVE critical sections, each accessing only fields of its own lock, no access
+   outside a section - loops, choices and blocking operations are allowed everywhere, no fuel / termination
+   assumption is needed.
+
+   What this closes: hypothesis (H1)+(H2) of part 4 is no longer a modelling step - the fine-grained executions of
+   the IR bodies of the exported store methods ARE (up to the configuration reached whenever nobody holds a lock)
+   executions of the operation-level model.
+   What remains outside: (a) threads that are not of this shape - nested sections (Hub.mu > Frames.mu: GetStats,
+   statsReporter), shared (RLock) sections, accesses outside any section do not occur in well-locked code but pools
+   mixing section-threads with such threads are not covered; (b) the atomic model here is relational and carries
+   thread-local state, part 4's [SerialEq] has a functional upd without local state - that the former instantiates
+   to the latter for deterministic bodies is not formalised; (c) as before, the meaning of Rd/Wr ([rd], [wr]) is
+   arbitrary here: the real bodies' effect is the C02/C10/C08 models'. *)
+Section ReductionGeneric.
+  Context {L F Ob Lo : Type}.
+  Variable leqb : L -> L -> bool.
+  Hypothesis leqb_spec : forall a b, leqb a b = true <-> a = b.
+  Variable guard : F -> L.
+  Variable rd : F -> Lo -> Ob -> Lo.
+  Variable wr : F -> Lo -> Ob -> Lo * Ob.
+
+  Theorem C12_value_semantics_refines_lock_ir :
+    forall (jump_ok : list (L * mode) -> list (stmt L F) -> Prop) c i c',
+    vstep leqb guard rd wr c i c' -> exists e, step leqb jump_ok (erase (thrs c)) i e (erase (thrs c')).
+  Proof. exact (vstep_erases leqb guard rd wr). Qed.
+
+  (* every configuration in which nobody holds a lock - in particular every final one - is reached, with the same
+     object states, thread-local states (hence results) and remaining code, by an execution in which every critical
+     section ran alone in one atomic step *)
+  Theorem C12_reduction_to_atomic_sections :
+    forall c0 c, red_init leqb guard c0 -> vsteps leqb guard rd wr c0 c -> quiescent c ->
+    exists a, asteps leqb guard rd wr c0 a /\ thrs a = thrs c /\ forall m, objs a m = objs c m.
+  Proof. exact (reduction leqb leqb_spec guard rd wr). Qed.
+
+  (* one fine-grained step is a stutter or exactly one step of the atomic-section semantics, under the roll-back
+     abstraction [sim] (threads inside a section put back to their Acq, their object to its value at the Acq) *)
+  Theorem C12_reduction_step :
+    forall c a i c', sim leqb guard rd wr c a -> vstep leqb guard rd wr c i c' ->
+    exists a', (a' = a \/ astep leqb guard rd wr a i a') /\ sim leqb guard rd wr c' a'.
+  Proof. exact (sim_step leqb leqb_spec guard rd wr). Qed.
+End ReductionGeneric.
+Print Assumptions C12_value_semantics_refines_lock_ir.
+Print Assumptions C12_reduction_to_atomic_sections.
+Print Assumptions C12_reduction_step.
+
+(* per-run obligation on the regenerated IR: every exported method of CodeStore, deny.Store, chanmap.Store is a
+   sequence of exclusive sections on its own lock with no access outside (checked here by vm_compute) *)
+Example gen_store_methods_exclusive_sections : msec_prog LockGen.store_methods LockGen.prog = true.
+Proof. vm_compute. reflexivity. Qed.
+
+(* any number of goroutines, each one call of any exported store method on any objects with any arguments (initial
+   local state), any meaning of the field accesses, any schedule: whenever nobody holds a lock, the stores and all
+   results are those of an execution where every method body ran alone, one at a time *)
+Theorem C12_relay_store_methods_reduce :
+  forall (Ob Lo : Type) (rd : oname -> Lo -> Ob -> Lo) (wr : oname -> Lo -> Ob -> Lo * Ob) c0 c,
+  runs_methods LockGen.store_methods LockGen.prog c0 ->
+  vsteps oname_eqb guard_of rd wr c0 c -> quiescent c ->
+  exists a, asteps oname_eqb guard_of rd wr c0 a /\ thrs a = thrs c /\ forall m, objs a m = objs c m.
+Proof.
+  exact (fun Ob Lo rd wr c0 c =>
+           prog_methods_reduce rd wr LockGen.store_methods LockGen.prog c0 c gen_store_methods_exclusive_sections).
+Qed.
+Print Assumptions C12_relay_store_methods_reduce.
+
+(* non-vacuity: two threads, one object, thread 1 moves in the middle of thread 0's section and then waits for the
+   lock; the hypotheses of the reduction hold and the run ends with the sum in the object and the old values returned *)
+Example C12_reduction_witness :
+  red_init Nat.eqb (fun f => f) w_c0 /\
+  exists c, vsteps Nat.eqb (fun f => f) w_rd w_wr w_c0 c /\ quiescent c /\
+            objs c 0 = 13%N /\ thrs c = [([], 1%N, []); ([], 6%N, [])].
+Proof. exact reduction_witness. Qed.
 
 (* ------------------------------------------------------------------ non-vacuity *)
 (* an injective instantiation exists; a well-locked two-function program has a concrete execution reaching a pool
